@@ -54,6 +54,8 @@ pub struct Ref<'g> {
     pub ops_seen: u32,
     pub skip_consumed: bool,
     pub backtracked: bool,
+    started: std::time::Instant,
+    pub max_seconds: f64,
 }
 
 pub mod opbit {
@@ -113,6 +115,8 @@ impl<'g> Ref<'g> {
             ops_seen: 0,
             skip_consumed: false,
             backtracked: false,
+            started: std::time::Instant::now(),
+            max_seconds: 3.0,
         }
     }
 
@@ -122,6 +126,7 @@ impl<'g> Ref<'g> {
 
     /// Parses from `rule` at position 0 with an empty stack.
     pub fn parse(&mut self, rule: &str) -> Outcome {
+        self.started = std::time::Instant::now();
         match self.call(rule, 0, &[], Atom::Non, false) {
             Ok(o) => Outcome::Match { toks: o.toks, end: o.pos, stack: o.stack },
             Err(Stop::NoMatch) => Outcome::NoMatch,
@@ -134,10 +139,13 @@ impl<'g> Ref<'g> {
     fn tick(&mut self) -> Result<(), Stop> {
         self.steps += 1;
         if self.steps > self.max_steps {
-            Err(Stop::Budget)
-        } else {
-            Ok(())
+            return Err(Stop::Budget);
         }
+        // generous per-parse wall-clock backstop (a step can cost O(stack size)); firing = inconclusive
+        if self.steps % 512 == 0 && self.started.elapsed().as_secs_f64() > self.max_seconds {
+            return Err(Stop::Budget);
+        }
+        Ok(())
     }
 
     fn rest(&self, pos: usize) -> &'g str {
@@ -340,12 +348,17 @@ impl<'g> Ref<'g> {
         } else {
             // WHITESPACE* ~ (COMMENT ~ WHITESPACE*)*
             self.star_rule("WHITESPACE", &mut cur, in_pred)?;
+            let mut stalled = 0u32;
             loop {
                 let stack0 = cur.stack.clone();
                 match self.call("COMMENT", cur.pos, &stack0, Atom::Non, in_pred) {
                     Ok(mut o) => {
                         if o.pos == cur.pos && o.stack == cur.stack {
                             return Err(Stop::Diverges("COMMENT matched without progress".into()));
+                        }
+                        stalled = if o.pos == cur.pos { stalled + 1 } else { 0 };
+                        if stalled > 64 {
+                            return Err(Stop::Budget);
                         }
                         cur.pos = o.pos;
                         cur.stack = o.stack;
